@@ -442,6 +442,31 @@ pub fn run(rep: &mut Report) {
         let (ts, c) = eps[(i % ne) as usize];
         j_consts(i / ne, c, ts, out)
     });
+    // sub-second digit groups: every (ms, us, ns) group combination over {000, 001, 250, 999}, three scales, through the
+    // nine constants (the optional %f? of the FLEX formats is printed exactly when the sub-second part is non-zero)
+    // and through %f / %S.%f
+    let groups = [0i128, 1, 250, 999];
+    let mut sub: Vec<(TimeScale, i128)> = vec![];
+    for (k, ts) in [TimeScale::UTC, TimeScale::TAI, TimeScale::GPST].into_iter().enumerate() {
+        for g in 0..64usize {
+            let ns = groups[g / 16] * 1_000_000 + groups[(g / 4) % 4] * 1000 + groups[g % 4];
+            sub.push((ts, super::c08::expected_count(days1900(2015, 2, 7 + k as i64), (11 * 3600 + 22 * 60 + 33) * NS_S + ns, ts)));
+        }
+    }
+    let nsb = sub.len() as u64;
+    rep.bound("sub_second_lattice", nsb);
+    sweep(rep, "c19.consts[subsec]", 9 * nsb, |i, out| {
+        let (ts, c) = sub[(i % nsb) as usize];
+        j_consts(i / nsb, c, ts, out)
+    });
+    sweep(rep, "c19.render[subsec]", 2 * nsb, |i, out| {
+        let (ts, c) = sub[(i % nsb) as usize];
+        if i / nsb == 0 {
+            j_render(&['f'], &[], c, ts, &leap, out)
+        } else {
+            j_render(&['S', 'f'], &[7], c, ts, &leap, out)
+        }
+    });
     let oc = [eps[0].1, super::c08::expected_count(days1900(2016, 12, 31), 86_399 * NS_S, TimeScale::UTC), super::c08::expected_count(days1900(2000, 2, 29), 12 * 3600 * NS_S + 37, TimeScale::UTC)];
     sweep(rep, "c19.offset", 2879 * 3, |i, out| j_offset((i / 3) as i128 - 1439, oc[(i % 3) as usize], out));
     let ts7 = [TimeScale::TAI, TimeScale::TT, TimeScale::UTC, TimeScale::GPST, TimeScale::GST, TimeScale::BDT, TimeScale::QZSST];
